@@ -162,8 +162,12 @@ class Stage:
         p = os.path.join(self.tree, 'src', m['file'])
         lines = open(p, encoding='latin-1').read().split('\n')
         self.saved = (p, lines[:])
-        if lines[m['line'] - 1].strip() != m['before']: return False
-        lines[m['line'] - 1] = m['new']
+        at = None          # the tree may have moved on a little since the list was made: same line text within 25 lines
+        for d in sorted(range(-25, 26), key=abs):
+            k = m['line'] - 1 + d
+            if 0 <= k < len(lines) and lines[k].strip() == m['before']: at = k; break
+        if at is None: return False
+        lines[at] = m['new']
         open(p, 'w', encoding='latin-1').write('\n'.join(lines)); return True
     def restore(self, m):
         p, lines = self.saved
